@@ -240,6 +240,70 @@ def aliasRiskL : List Q → Bool
   | q :: qs => aliasRisk q || aliasRiskL qs
 end
 
+
+/-! ### canonical names, capture freedom -/
+
+def canonName (k : Nat) : String := "u_" ++ toString k
+
+mutual
+/-- back from the de Bruijn form, every binder named after its depth (`u_0`, `u_1`, …): all binders distinct -/
+def unresolve (depth : Nat) : DB → Q
+  | .bvar i => .var (canonName (depth - 1 - i))
+  | .fvar x => .var x
+  | .lit c => .lit c
+  | .lam n b => .lam ((List.range n).map (fun i => canonName (depth + i))) (unresolve (depth + n) b)
+  | .app f as => .app (unresolve depth f) (unresolveL depth as)
+  | .node t ks => .node t (unresolveL depth ks)
+def unresolveL (depth : Nat) : List DB → List Q
+  | [] => []
+  | d :: ds => unresolve depth d :: unresolveL depth ds
+end
+
+/-- the α-variant of a query in which no binder name is used twice -/
+def canonNames (q : Q) : Q := unresolve 0 (resolve [] q)
+
+/-- `simplify_chained_calls` treats the query like its canonically named variant.  False where the simplifier
+captures: a parameter bound again inside a β-reduced `Where` predicate or directly called lambda, a parameter
+called `acc`/`v` around a Count/Sum, a parameter called `arg_<n>`, a lambda pushed under a `SelectMany`
+parameter of the same name. -/
+def captureFreeB (fuel : Nat) (q : Q) : Bool :=
+  let a := (simp fuel [] 0 (preSimp q)).1
+  let b := (simp fuel [] 0 (preSimp (canonNames (strip q).1))).1
+  (hasBang a == hasBang b) && (hasBang a || resolve [] a == resolve [] b)
+
+mutual
+def probeArgs : Q → List Q
+  | .var _ => []
+  | .lit _ => []
+  | .lam _ b => probeArgs b
+  | .app f as =>
+    (match f, as with
+      | .var g, [a] => if g == "!probe" then [a] else []
+      | _, _ => [])
+    ++ probeArgs f ++ probeArgsL as
+  | .node _ ks => probeArgsL ks
+def probeArgsL : List Q → List Q
+  | [] => []
+  | q :: qs => probeArgs q ++ probeArgsL qs
+end
+
+/-- the stream under a fusing site `Op(Op(s, f), g)` -/
+def siteSource : Q → Option Q
+  | .app (.var _) [.app (.var _) [s, _], _] => some (Q.call "!probe" [s])
+  | _ => none
+
+/-- Fusing by hand is only the same as what func_adl does itself when the stream under the two steps does not
+simplify (in its context) to a Select/SelectMany/Where: otherwise the steps are first pushed through / merged
+with that operator one by one, which re-associates conjunctions and copies selections (different sharing of
+sub-expressions, hence different generated code).  `q` is the call-style, separately written query. -/
+def fuseSiteOkB (fuel : Nat) (q : Q) (p : List Step) : Bool :=
+  match mapAt siteSource p q with
+  | some probed =>
+    let r := (simp fuel [] 0 (aggNorm probed)).1
+    let heads := probeArgs r
+    !heads.isEmpty && heads.all (fun h => !(h.isCallOf "Select" || h.isCallOf "SelectMany" || h.isCallOf "Where"))
+  | none => false
+
 /-- the normal forms of `simplify_chained_calls` agree up to α (used to keep fusing variants whose *simplified
 queries* differ — re-association of three `Where`s, duplicated selections — out of the main stream) -/
 def sameNormalFormB (fuel : Nat) (q q' : Q) : Bool :=
